@@ -1,5 +1,6 @@
 """C09: printed lines and their coordinates are the input's own; JSON output is lossless."""
 import base64
+import os
 import json
 
 import regexrender as rr
@@ -318,6 +319,115 @@ def ml_part(chk, tier):
         sc.close()
 
 
+RAW_TOKENS = [b"x", b"x", b"a", b" ", "\u00e9".encode(), "\u20ac".encode(), "\U0001F600".encode(), "\ufffd".encode(), b"\xff", b"\xc3",
+              b"\xe2\x82", b"\xed\xa0\x80", b"\xc0\xaf", b"\r", b"\t", b"\x00", b"\xf0\x9f"]
+
+
+def raw_json_part(chk, tier):
+    """rg --json on free-form byte files (every class of valid and invalid UTF-8, U+FFFD itself, NUL under -a, lines longer
+    than the roll buffer, CRLF, no final terminator) with the fixed string x: the message stream (which lines, numbers,
+    offsets, lengths, end statistics) is judged by TLC (GrepJudge over GrepModel); that the reported bytes are the
+    input's own, that text/base64 is chosen by UTF-8 validity and that the submatches are the occurrences of x is
+    checked on the decoded messages."""
+    import random
+    rng = random.Random(vlib.seed() * 7919 + 9)
+    nfiles = 16 if tier == "quick" else 150
+    sc = rgrun.Scratch("c09raw")
+    try:
+        jobs, meta = [], []
+        for k in range(nfiles):
+            tb = b"\r\n" if k % 3 == 1 else b"\n"
+            nl = rng.randint(1, 14)
+            lines = []
+            for _ in range(nl):
+                toks = [rng.choice(RAW_TOKENS) for _ in range(rng.randint(0, 8))]
+                if rng.random() < 0.04:
+                    toks.insert(rng.randint(0, len(toks)), b"y" * rng.randint(66000, 90000))
+                lines.append(b"".join(toks).replace(b"\n", b""))
+            data = tb.join(lines) + (tb if rng.random() < 0.8 else b"")
+            if not data:
+                data = b"x"
+            f = sc.write("r%03d" % k, data)
+            for ctx in (0, 1):
+                for mm in ("--mmap", "--no-mmap"):
+                    args = ["--no-config", "-a", "--json", "-j1", "-F", mm] + (["--crlf"] if tb == b"\r\n" and k % 2 else []) + \
+                           (["-C1"] if ctx else []) + ["x", f]
+                    jobs.append({"args": args})
+                    meta.append((k, data, ctx, mm))
+        outs = rgrun.run_many(jobs)
+        chk.evaluations += len(jobs)
+        os.makedirs(os.path.join(vlib.WORK, "c09"), exist_ok=True)
+        rpath = os.path.join(vlib.WORK, "c09", "raw_%d.ndjson" % os.getpid())
+        pywhy = {}
+        with open(rpath, "w") as fh:
+            for rid, ((k, data, ctx, mm), (rc, so, se)) in enumerate(zip(meta, outs), 1):
+                L, s0 = [], 0
+                while s0 < len(data):
+                    e0 = data.find(b"\n", s0)
+                    e0 = len(data) if e0 < 0 else e0 + 1
+                    L.append({"s": s0, "e": e0})
+                    s0 = e0
+                sel = [i + 1 for i, l in enumerate(L) if b"x" in data[l["s"]:l["e"]]]
+                obs = []
+                why = None
+                try:
+                    msgs = [json.loads(x) for x in so.split(b"\n") if x.strip()]
+                except ValueError:
+                    msgs, why = [], "output is not JSON lines"
+                if rc not in (0, 1):
+                    why = "rg failed rc=%d: %s" % (rc, se.decode("utf8", "replace")[:200])
+                for m in msgs:
+                    t, d = m.get("type"), m.get("data", {})
+                    if t == "begin":
+                        obs.append({"k": "begin", "ln": 0, "off": 0, "len": 0})
+                    elif t in ("match", "context"):
+                        raw, kind = json_lines_field(d["lines"])
+                        off = d["absolute_offset"]
+                        obs.append({"k": "match" if t == "match" else "ctx", "ln": d["line_number"], "off": off, "len": len(raw)})
+                        if why:
+                            continue
+                        if raw != data[off:off + len(raw)]:
+                            why = "line %s: reported bytes are not the input's bytes at the reported offset" % d["line_number"]
+                        elif (kind == "text") != valid_utf8(raw):
+                            why = "line %s: %s used for %r" % (d["line_number"], kind, raw[:40])
+                        elif t == "match":
+                            occ = [(i, i + 1) for i in range(len(raw)) if raw[i:i + 1] == b"x"]
+                            if [(x["start"], x["end"]) for x in d["submatches"]] != occ:
+                                why = "line %s: submatches %s, occurrences of x %s" % (d["line_number"], [(x["start"], x["end"]) for x in d["submatches"]][:4], occ[:4])
+                            elif any(json_lines_field(x["match"]) != (b"x", "text") for x in d["submatches"]):
+                                why = "line %s: a submatch is not the text x" % d["line_number"]
+                    elif t == "end":
+                        obs.append({"k": "finish", "ln": 0, "off": d["stats"]["bytes_searched"], "len": 1})
+                if not sel and not why:
+                    if [m.get("type") for m in msgs] != ["summary"]:
+                        why = "messages %s for a file without a selected line" % [m.get("type") for m in msgs][:4]
+                    obs = None
+                pywhy[rid] = why
+                if obs is not None:
+                    fh.write(json.dumps({"id": rid, "L": L, "sel": sel, "total": len(data), "nobreak": True,
+                                         "cfg": {"A": ctx, "B": ctx, "inv": False, "pass": False, "stopnm": False, "lnum": True, "term": "lf"},
+                                         "obs": obs}) + "\n")
+        res = vlib.tlc("search/GrepJudge", "GrepJudge", workers=8, timeout=1800, env={"RUNS": rpath}, xmx="8g")
+        os.remove(rpath)
+        if res.rc != 0:
+            raise vlib.ToolError("GrepJudge failed:\n" + res.tail(40))
+        chk.add_tlc(res)
+        bad = set(v["id"] for v in res.emits("VERDICT"))
+        for rid, ((k, data, ctx, mm), (rc, so, se)) in enumerate(zip(meta, outs), 1):
+            why = pywhy[rid] or ("the message stream (lines, numbers, offsets, lengths, bytes searched) is not the reference stream" if rid in bad else None)
+            if why:
+                chk.violation({"variant": "json_raw", "mmap": mm, "context": ctx, "crlf": b"\r\n" in data},
+                              {"why": why, "args": jobs[rid - 1]["args"][:-1], "input": list(data) if len(data) < 4000 else list(data[:4000]),
+                               "input_seed": [vlib.seed(), k], "stdout_head": so[:600].decode("utf8", "replace")})
+            else:
+                chk.validated += 1
+                if any(not valid_utf8(l) for l in data.split(b"\n")) and b"x" in data:
+                    chk.nontrivial_case("raw:%d:%d:%s" % (k, ctx, mm))
+        vlib.log("[C09] raw JSON part: %d runs, %d streams rejected by TLC" % (len(jobs), len(bad)))
+    finally:
+        sc.close()
+
+
 def main(tier):
     chk = vlib.Check("C09", tier)
     chk.rule = ("line mode: every (pattern, options) of the printer family on the whole line catalogue through 5 output forms; multi-line: "
@@ -326,6 +436,7 @@ def main(tier):
     chk.assumptions = ["regex semantics as in specs/common/RegexSem.tla", "bounds: specs/regex/MCPrinter.tla, MCGrepML.tla"]
     line_part(chk, tier)
     ml_part(chk, tier)
+    raw_json_part(chk, tier)
     chk.exhaustive = True
     return chk.finish()
 
